@@ -22,6 +22,12 @@ THEOREMS = [
     "C13.machSteps_eq_specOrder", "C13.runBody_spec", "C13.session_spec", "C13.run_spec",
     "C13.machEnter_fresh", "C13.exc_iff_raised", "C13.power_off_count", "C13.power_off_exactly_once", "C13.power_off_position",
     "C13.refused_no_power", "C13.conn_exit_after_power_off", "C13.fresh_entry_reinit", "C13.powercycle_delay_exact",
+    # steps whose context manager handles the exception passing through it
+    "C13.unwind_spec_handling", "C13.enterUnit_spec", "C13.enterUnits_split", "C13.enterSteps_split", "C13.enterSteps_spec",
+    "C13.machEnter_fresh_handling", "C13.session_spec_handling", "C13.expectedExc_plain", "C13.exc_iff_raised_handling",
+    "C13.no_raise_no_exc", "C13.body_exception_always_propagates", "C13.setup_exception_always_propagates",
+    "C13.teardown_fault_propagates_unless_handled", "C13.pendingFault_eq_some_iff", "C13.handled_steps_still_torn_down",
+    "C13.spec_eq_plain", "C13.spec_eq_plain_of_no_handlers", "C13.handlesOf_mro",
 ]
 LEAN_MODULES = ["TbotVerif.Props.C13"]
 QUICK_N, THOROUGH_N = 15000, 90000
@@ -168,7 +174,9 @@ def exhaustive(params):
     """every single fault point and every pair of fault points (body raise included as a point), for every
     composition with <= 1 mixin of each kind (plus two with 2 initialisers), PowerControl at every position
     among the initialisers, bodies nesting the context 1-4 times; then every pair of sessions
-    (faulted, fault-free) to see the machine come up again"""
+    (faulted, fault-free) to see the machine come up again.  Then, for the compositions with <= 6 bases, every choice
+    of one or two steps whose context manager HANDLES the exception passing through it (class style for one, generator
+    style for the other), with every single fault point, every pair and (<= 5 bases) every triple of them"""
     comps = []
     for npre, nini, npost in itertools.product([0, 1], [0, 1, 2], [0, 1]):
         for wpos in list(range(nini + 1)) + [None]:
@@ -190,6 +198,22 @@ def exhaustive(params):
                 body = opens + (["r1"] if "body" in combo else ["m1"]) + ["]"] * len(opens)
                 yield (f"{','.join(bases)} 4 0;E;{','.join(faults) or '.'};{','.join(body)} "
                        f"1;E;.;{','.join(body)}")
+    for bases in comps:
+        if len(bases) > 6:
+            continue
+        cms = [i for i, b in enumerate(bases) if b[0] in CM and b[0] != "l"]
+        pts = fault_points(bases) + ["body"]
+        combos = [()] + [(p,) for p in pts] + list(itertools.combinations(pts, 2))
+        if len(bases) <= 5:
+            combos += list(itertools.combinations(pts, 3))
+        for hs in [(i,) for i in cms] + list(itertools.combinations(cms, 2)):
+            hb = list(bases)
+            for n, i in enumerate(hs):
+                hb[i] = hb[i][0] + "tu"[n]
+            for combo in combos:
+                faults = sorted(p for p in combo if p != "body")
+                body = ["r1"] if "body" in combo else ["m1"]
+                yield f"{','.join(hb)} 0 0;E;{','.join(faults) or '.'};{','.join(body)}"
 
 
 # ---- evidence ----------------------------------------------------------------------------
